@@ -157,6 +157,9 @@ class Spectrum:
                 raise
 
         elif isinstance(other, Spectrum):
+            if other.waveunit != self.waveunit:
+                other = other.copy()
+                other.to(self.waveunit)
             wave, self_value, other_value = _interp_common(self, other, sampling,
                                                            method, fill_value)
             value = ufunc(self_value, other_value)
@@ -400,6 +403,7 @@ class Spectrum:
 
         """
         if waveunit != self.waveunit:
+            self = self.copy()
             self.to(waveunit)
 
         interp = scipy.interpolate.interp1d(self.wave, self.value, kind=method,
@@ -852,14 +856,14 @@ def _sampling(wave, method='min'):
         raise ValueError('Unknown sampling method', method)
 
 
-def _intersect(subset, superset):
+def _intersect(subset, superset, tol=0):
     """Return the superset indices where the subset overlaps based on its
     subset.min() and subset.max().
 
     Both subset and superset are assumed to be monotonically increasing
 
     """
-    return np.where((superset >= subset.min()) & (superset <= subset.max()))
+    return np.where((superset >= subset.min() - tol) & (superset <= subset.max() + tol))
 
 
 def _interp_common(s1, s2, sampling, method, fill_value):
@@ -905,19 +909,24 @@ def _interp_common(s1, s2, sampling, method, fill_value):
 
     dwave = _sampling((s1.wave, s2.wave), sampling)
 
-    num = int(np.ceil((maxwave - minwave)/dwave))
+    # guard the sample count and the range tests against rounding in unit
+    # conversions (e.g. 700 nm -> 0.7000000000000001 um)
+    tol = 1e-9 * dwave
+    num = int(np.ceil((maxwave - minwave - tol)/dwave))
     commonwave = np.linspace(minwave, maxwave, num + 1)
 
     # get the portion of commonwave that corresponds to the two spectrum objects
-    s1_index = _intersect(s1.wave, commonwave)
-    s1_wave = commonwave[s1_index]
+    s1_index = _intersect(s1.wave, commonwave, tol)
+    s1_wave = np.clip(commonwave[s1_index], s1.wave.min(), s1.wave.max())
 
-    s2_index = _intersect(s2.wave, commonwave)
-    s2_wave = commonwave[s2_index]
+    s2_index = _intersect(s2.wave, commonwave, tol)
+    s2_wave = np.clip(commonwave[s2_index], s2.wave.min(), s2.wave.max())
 
     # sample each Spectrum at the requested sampling
-    s1_samplevalue = s1.sample(s1_wave, method=method, fill_value=fill_value)
-    s2_samplevalue = s2.sample(s2_wave, method=method, fill_value=fill_value)
+    s1_samplevalue = s1.sample(s1_wave, method=method, fill_value=fill_value,
+                               waveunit=s1.waveunit)
+    s2_samplevalue = s2.sample(s2_wave, method=method, fill_value=fill_value,
+                               waveunit=s2.waveunit)
 
     # create nominal value arrays
     s1_value = fill_value * np.ones(commonwave.shape)
